@@ -1,5 +1,5 @@
 (* CsvProofs.v — the statements of C09 assembled from CsvSpecProofs / CsvWriterProofs / CsvReaderProofs / CsvStreamProofs. *)
-From BS Require Import Base CsvSpec CsvSpecProofs CsvModel CsvWriterProofs CsvReaderProofs CsvStreamProofs.
+From BS Require Import Base CsvSpec CsvSpecProofs CsvSpecComplete CsvModel CsvWriterProofs CsvReaderProofs CsvStreamProofs.
 From Coq Require Import ZifyBool ZifyN ZifyNat.
 Ltac Zify.zify_post_hook ::= Z.div_mod_to_equations.
 Local Open Scope N_scope.
@@ -111,6 +111,29 @@ Lemma reader_stream_eq_mem : forall K sep chs final t text keys, (0 < K)%nat -> 
   render sep chs final t = Some (stream_payload K text) ->
   csv_load_stream K sep keys text = csv_load sep keys (stream_payload K text).
 Proof. exact csv_load_stream_eq_mem. Qed.
+
+(* the same, stated on the reference parser: whatever text rfc_parse accepts, the loaders return what it returns *)
+Lemma reader_rfc_parsed : forall sep text hdr rows keys, allowed sep -> NoDup hdr -> uniform hdr rows ->
+  rfc_parse sep text = Some (hdr :: rows) ->
+  csv_load sep keys text = Ok (select hdr keys rows) /\
+  (forall K, (0 < K)%nat -> forall stext, stream_payload K stext = text ->
+     csv_load_stream K sep keys stext = Ok (select hdr keys rows)).
+Proof.
+  intros sep text hdr rows keys A ND U P. destruct (parse_render sep text _ P) as (chs & final & R).
+  split; [apply (csv_load_rfc sep chs final); assumption|].
+  intros K HK stext E. apply (csv_load_stream_rfc K sep chs final); try assumption. rewrite E. exact R.
+Qed.
+
+Lemma reader_width_parsed : forall sep text hdr recs keys, allowed sep ->
+  rfc_parse sep text = Some (hdr :: recs) -> Exists (fun r => length r <> length hdr) recs ->
+  csv_load sep keys text = Err ParsingError /\
+  (forall K, (0 < K)%nat -> forall stext, stream_payload K stext = text ->
+     csv_load_stream K sep keys stext = Err ParsingError).
+Proof.
+  intros sep text hdr recs keys A P E. destruct (parse_render sep text _ P) as (chs & final & R).
+  split; [apply (csv_load_width sep chs final hdr recs); assumption|].
+  intros K HK stext Es. apply (csv_load_stream_width K sep chs final hdr recs); try assumption. rewrite Es. exact R.
+Qed.
 
 (* whatever the header names (duplicates included): the answers are those of the column cursor + find model read_spec *)
 Lemma reader_any_header : forall sep chs final hdr rows text keys, allowed sep -> uniform hdr rows ->
